@@ -147,12 +147,29 @@ class _Gen:
         deep = depth >= o["maxdepth"]
         kind = r.weighted([
             ("assign", 5), ("aug", 2), ("expr", 2), ("pass", 0 if o["clean"] else 0.3),
+            ("store", 1.2 * o["stores"]),
             ("if", 0 if deep else 4), ("while", 0 if deep else 2 * o["loops"]),
             ("for", 0 if deep else 2.5 * o["loops"]),
             ("break", 1.5 * o["jumpy"] if inloop else 0), ("continue", 1 * o["jumpy"] if inloop else 0),
             ("return", 0.8 * (o["jumpy"] if inloop else 1)),
         ])
-        if kind == "assign":
+        if kind == "store":
+            # assignment / augmented assignment to an attribute or item of the
+            # simulated object: the store is an interaction, so the order of
+            # value evaluation vs. target evaluation is observable
+            form = r.weighted([("attr", 3), ("item", 3), ("item-expr", 1.5), ("aug-attr", 1), ("tuple", 1.5)])
+            if form == "attr":
+                self.emit(ind, "O.a%d = %s" % (self.sid(), self.expr(1)))
+            elif form == "item":
+                self.emit(ind, "O[%d] = %s" % (self.sid(), self.expr(1)))
+            elif form == "item-expr":
+                self.emit(ind, "O[%s] = %s" % (self.ext(2), self.expr(1)))
+            elif form == "aug-attr":
+                self.emit(ind, "O.a%d += %s" % (self.sid(), self.atom() if self.opts["boolop_mode"] == "toplevel" else self.expr(2)))
+            else:
+                a_, b_ = r.sample(LOCALS, 2)
+                self.emit(ind, "%s, %s = %s, %s" % (a_, b_, self.expr(2), self.expr(2)))
+        elif kind == "assign":
             self.emit(ind, "%s = %s" % (r.choice(LOCALS), self.expr()))
         elif kind == "aug":
             self.in_aug += 1
@@ -187,7 +204,10 @@ class _Gen:
             var = r.choice(avail) if avail and (r.chance(0.85) or not o["for_target_local"]) else r.choice(LOCALS)
             if var in LOCALS and not o["for_target_local"]:
                 var = LOOPVARS[0]
-            self.emit(ind, "for %s in I(%d):" % (var, self.sid()))
+            if not o["clean"] and o["for_tuple"] and r.chance(0.3):
+                self.emit(ind, "for %s, %s in I(%d, 2):" % (var, r.choice(LOCALS), self.sid()))
+            else:
+                self.emit(ind, "for %s in I(%d):" % (var, self.sid()))
             pushed = var in LOOPVARS
             if pushed:
                 self.forvars.append(var)
@@ -239,6 +259,8 @@ def _draw_opts(rng):
         "for_target_local": rng.chance(0.4),
         "clean": False,
         "jumpy": rng.choice([1, 1, 2.5, 4]),
+        "stores": rng.choice([0, 1, 1, 2]),
+        "for_tuple": rng.chance(0.3),
         "family": "multiexit" if rng.chance(0.15) else "general",
     }
 
